@@ -104,6 +104,13 @@ pub(crate) mod read_actor;
 #[cfg(test)]
 mod read_actor_test;
 
+/// Verification hooks (compiled only with `--cfg d_engine_verif`): the lease test of the two read fast paths.
+#[cfg(d_engine_verif)]
+pub mod verif_lease_paths {
+    pub use crate::api::verif_embedded_lease_read_is_local;
+    pub use crate::read_actor::verif_serve_lease_read;
+}
+
 /// Node lifecycle management
 ///
 /// Contains [`Node`] and [`NodeBuilder`] for server setup.
